@@ -12,7 +12,8 @@
  *     of context calls and of module / pub-sub / source / stash / batch calls on modules of thread 0, with symbolic
  *     arguments: each returns a negative code (NULL for pointer-returning calls) and leaves the module, its context
  *     and the thread without context unchanged.  BST (state of the second module: 0 IDLE, 1 RUNNING, 2 PAUSED,
- *     3 STOPPED), LOOP0 (thread 0's context is looping meanwhile)
+ *     3 STOPPED), LOOP0 (thread 0's context is looping meanwhile), SHORT (companion: four state-changing calls with
+ *     concrete arguments, so that a regressed thread check fails quickly instead of timing out)
  *   4 two threads with one context each: the second registration is refused on both, deregistering one leaves the
  *     other alone
  *   5 the first library calls of the process come from a thread without context (no context was ever registered, so
@@ -33,6 +34,13 @@
 #endif
 #ifndef LOOP0
 #define LOOP0 0
+#endif
+/* FLFIXED: companion jobs with the refused flag words concrete (a regression that lets the refused call through makes
+ * the symbolic-flag job time out instead of failing) */
+#ifdef FLFIXED
+#define FLAGWORD() ((unsigned)FLFIXED)
+#else
+#define FLAGWORD() nondet_uint()
 #endif
 #define VF_ACTION my_action
 static void my_action(int who, int kind, struct _mod *m, const m_queue_t *q);
@@ -135,14 +143,14 @@ int vf_main(void) {
     r = m_mod_ps_tell(A, A, "go", 0); VF_CHECK(r == 0, "tell");
     m_ctx_t *c0 = A->ctx;
     ctx_snap_t before = snap_ctx(c0), after;
-    unsigned fl = nondet_uint(); const void *ud = nondet_bool() ? (const void *)&ud1 : NULL;
+    unsigned fl = FLAGWORD(); const void *ud = nondet_bool() ? (const void *)&ud1 : NULL;
     long live0 = live;
     r = m_ctx_register("second", (m_ctx_flags)fl, ud);
     VF_CHECK(r == -EEXIST, "a second context on the thread is refused with EEXIST (idle context, any flags)");
     after = snap_ctx(c0);
     VF_CHECK(same_ctx(&before, &after) && live == live0, "the refused registration changed nothing");
     VF_CHECK(m_ctx_name() == before.name && m_ctx_userdata() == &ud0 && m_ctx_len() == 1, "the thread's context is still the first one");
-    cb_flags = nondet_uint(); cb_ud = ud;
+    cb_flags = FLAGWORD(); cb_ud = ud;
     r = m_ctx_dispatch(); VF_CHECK(r == 0, "loop starts");
     before = snap_ctx(c0); live0 = live;
     r = m_ctx_register("third", (m_ctx_flags)fl, ud);
@@ -199,7 +207,7 @@ int vf_main(void) {
     m_ctx_t *c0 = A->ctx;
     ctx_snap_t before = snap_ctx(c0), after; mod_snap_t mb = snap_mod(A), ma;
     long live0 = live;
-    unsigned mfl = nondet_uint();
+    unsigned mfl = FLAGWORD();
     m_mod_t *N = NULL;
     r = m_mod_register("n", &N, &vf_hook, (m_mod_flags)mfl, &ud1);
     VF_CHECK(r < 0, "no module can be registered in a finalised context (any flags)");
@@ -247,6 +255,15 @@ int vf_main(void) {
     long live0 = live; int fds0 = open_fds(); int starts = vf_nstart[0] + vf_nstart[1], stops = vf_nstop[0] + vf_nstop[1], evts = vf_ncalls[0] + vf_ncalls[1];
 
     vf_cur_thread = 1;                 /* from here on the calls come from a thread that never registered a context */
+#ifdef SHORT
+    /* companion job: a few state-changing calls with concrete arguments on the RUNNING module only (if the thread check
+     * regresses the calls go through: with symbolic arguments that is a time-out, here it is a quick failure) */
+    VF_CHECK(m_ctx_len() == -EPIPE && m_ctx_finalize() < 0, "no context: m_ctx_len / m_ctx_finalize");
+    VF_CHECK(m_mod_set_batch_size(A, 3) < 0, "no context: m_mod_set_batch_size");
+    VF_CHECK(m_mod_ps_unsubscribe(A, "t") < 0, "no context: m_mod_ps_unsubscribe");
+    VF_CHECK(m_mod_pause(A) < 0, "no context: m_mod_pause");
+    { m_mod_t *ref = A; VF_CHECK(m_mod_deregister(&ref) < 0 && ref == A, "no context: m_mod_deregister (the reference is not taken)"); }
+#else
     ctx_menu();
     /* module registration */
     m_mod_t *N = NULL; unsigned mfl = nondet_uint();
@@ -297,6 +314,7 @@ int vf_main(void) {
     VF_CHECK(m_mod_set_tokenbucket(T, rate, burst) < 0, "no context: m_mod_set_tokenbucket");
     { m_mod_t *ref = T; VF_CHECK(m_mod_deregister(&ref) < 0 && ref == T, "no context: m_mod_deregister (the reference is not taken)"); }
     }
+#endif
     /* the plain getters are the documented exception */
     VF_CHECK(m_mod_name(A) == vf_names[0] && m_mod_userdata(A) == &ud0 && m_mod_is(A, M_MOD_RUNNING) && m_mod_state(A) == M_MOD_RUNNING,
              "plain getters answer from any thread");
@@ -316,7 +334,7 @@ int vf_main(void) {
 
 #elif G == 4
     /* ------------------------------------------------------------------ one context per thread, two threads */
-    unsigned fl = nondet_uint(); const void *ud = nondet_bool() ? (const void *)&ud1 : NULL;
+    unsigned fl = FLAGWORD(); const void *ud = nondet_bool() ? (const void *)&ud1 : NULL;
     r = m_ctx_register("t0", M_CTX_PERSIST, &ud0); VF_CHECK(r == 0, "thread 0 registers");
     m_mod_t *A = vf_mod(0, 0, NULL);
     vf_cur_thread = 1;
